@@ -241,5 +241,9 @@ def to_scalar_shape(repo: Repo, R):
                 strarm = ast.unparse(t.body[-1]) == f"return Prefixed(number={v})" and len(t.handlers) == 1 and ast.unparse(t.handlers[0].body[-1]) == f"return Literal(text={v})"
     nums = [r for r in srets if ast.unparse(r.value) == f"Prefixed(number={v})" and shared.cond_match(fi.node, r, f"isinstance({v}, str)", False, use_prov=False) and shared.cond_match(fi.node, r, f"isinstance({v}, (Prefixed, Literal))", False, use_prov=False)]
     num = len(nums) == 1
+    reb = shared.param_rebound(fi.node, v)
+    R.check(not reb, rule, key_of(fi, "value-as-given"), fi.at(reb[0]) if reb else fi.site,
+            "to_scalar converts the value it was given (the argument is not rewritten first)" if not reb else f"`{ast.unparse(reb[0])[:80]}` rewrites the value before it is converted",
+            why="the text of a literal parameter changes on the way into the package (padding, case, ...)")
     R.check(asis and strarm and num, rule, key_of(fi), fi.site, f"to_scalar: Prefixed/Literal unchanged ({asis}); strings become a Prefixed if numeric, else a Literal with the same text ({strarm}); numbers become Prefixed(number=v) ({num})",
             why="a numeric string becomes a Literal (or another string), or the literal's text differs from what was given")
